@@ -81,7 +81,7 @@ def sbl(bs, bullet="*", em="*"):
             for i, it in enumerate(b[2]):
                 m = bullet if k == "ul" else "%d." % (i + 1)
                 text = sbl(it, bullet, em).rstrip("\n")
-                if b[1]: text = text.replace("\n\n", "\n")          # tight item: no blank line before a nested list
+                if b[1]: text = text.replace("\n\n", "\n", 1) if (len(it) == 2 and it[1][0] in ("ul", "ol") and not it[1][1]) else text.replace("\n\n", "\n")          # tight item: no blank line before a nested list (a loose nested list keeps its own blank lines)
                 body = text.split("\n")
                 its.append(m + " " + body[0] + "".join("\n" + ("    " + l if l else "") for l in body[1:]))
             out.append(("\n" if b[1] else "\n\n").join(its))
@@ -120,6 +120,12 @@ def containers():
     out.append(("ul", False, [[("p", INL[0]), ("p", INL[1])], [("p", INL[2])]]))
     out.append(("ul", False, [[("p", INL[0]), ("ul", True, [[("p", INL[1])]])], [("p", INL[2])]]))
     out.append(("ul", True, [[("p", INL[0]), ("ul", True, [[("p", INL[1])], [("p", INL[3])]])], [("p", INL[2])]]))
+    # every combination of tight/loose outer and inner lists, both kinds, nested in the first or the last item
+    for ok, ik, ot, it_, last in itertools.product(("ul", "ol"), ("ul", "ol"), (True, False), (True, False), (False, True)):
+        if ot and not it_ and not last: continue          # a blank line inside the first item of a tight list is also a blank line between the outer items: not a tight list any more
+        inner = (ik, it_, [[("p", INL[1])], [("p", INL[3])]])
+        items = [[("p", INL[0])], [("p", INL[2]), inner]] if last else [[("p", INL[0]), inner], [("p", INL[2])]]
+        out.append((ok, ot, items))
     out.append(("bq", [("bq", [("p", INL[1])])]))
     out.append(("bq", [("ul", True, [[("p", INL[0])], [("p", INL[2])]])]))
     return out
